@@ -9,24 +9,29 @@ namespace Jaq.C03
 /-! ### purity of index filters, lifted to continuations, adapters and residual streams -/
 
 def K.pureIdx : K → Bool
-  | .pipe r _ => r.pureIdx
-  | .as_ r _ _ => r.pureIdx
-  | .ite t e _ _ => t.pureIdx && e.pureIdx
-  | .logic _ r _ _ => r.pureIdx
+  | .pipe r c => r.pureIdx && c.pure
+  | .as_ r c _ => r.pureIdx && c.pure
+  | .ite t e c _ => t.pureIdx && e.pureIdx && c.pure
+  | .logic _ r c _ => r.pureIdx && c.pure
   | .idxL _ => true
-  | .idxR i _ _ => i.simple
+  | .idxR i c _ => i.simple && c.pure
+  | .math _ r c _ => r.pureIdx && c.pure
+  | .proj p c => p.pureIdx && c.pure
 
 def Wr.pureIdx : Wr → Bool
-  | .try_ c _ => c.pureIdx
+  | .try_ c ctx => c.pureIdx && ctx.pure
   | _ => true
 
 def Th.pureIdx : Th → Bool
-  | .run t _ _ => t.pureIdx
+  | .run t c _ => t.pureIdx && c.pure
   | .app a b => a.pureIdx && b.pureIdx
   | .bind a k => a.pureIdx && k.pureIdx
   | .wrapC s a => s.pureIdx && a.pureIdx
-  | .orElse a r _ _ => a.pureIdx && r.pureIdx
+  | .orElse a r c _ => a.pureIdx && r.pureIdx && c.pure
   | .one a => a.pureIdx
+  | .fold _ upd c _ src _ ini stack => upd.pureIdx && c.pure && src.pureIdx && ini.pureIdx && stack.pureIdx
+  | .fInp _ _ rest => rest.pureIdx
+  | .fOut _ _ ys rest => ys.pureIdx && rest.pureIdx
   | _ => true
 
 /-- all definitions have pure index filters -/
@@ -35,11 +40,101 @@ def DPure (D : List T) : Prop := ∀ (i : Nat) (body : T), D[i]? = some body →
 theorem simple_pure {t : T} (h : t.simple = true) : t.pureIdx = true := by
   cases t <;> simp_all [T.simple, T.pureIdx]
 
+/-! ### purity of contexts -/
+
+@[simp] theorem Ctx.pure_mk (env : List Bind) (l : Nat) : (Ctx.mk env l).pure = Bind.pureL env := rfl
+@[simp] theorem Bind.pureL_nil : Bind.pureL [] = true := by simp [Bind.pureL]
+@[simp] theorem Bind.pureL_cons (b : Bind) (bs : List Bind) : Bind.pureL (b :: bs) = (b.pure && Bind.pureL bs) := by
+  simp [Bind.pureL]
+@[simp] theorem Bind.pure_var (v : Val) : (Bind.var v).pure = true := by simp [Bind.pure]
+@[simp] theorem Bind.pure_label (l : Nat) : (Bind.label l).pure = true := by simp [Bind.pure]
+@[simp] theorem Bind.pure_fn (t : T) (env : List Bind) : (Bind.fn t env).pure = (t.pureIdx && Bind.pureL env) := by
+  simp [Bind.pure]
+
+@[simp] theorem Ctx.pure_consVar {c : Ctx} (v : Val) : (c.consVar v).pure = c.pure := by
+  simp [Ctx.consVar, Ctx.pure]
+@[simp] theorem Ctx.pure_consLabel {c : Ctx} : c.consLabel.pure = c.pure := by
+  simp [Ctx.consLabel, Ctx.pure]
+@[simp] theorem Ctx.pure_forDef {c : Ctx} : c.forDef.pure = true := by
+  simp [Ctx.forDef, Ctx.pure]
+@[simp] theorem Ctx.pure_empty : (Ctx.mk [] 0).pure = true := by simp
+
+theorem Bind.pureL_get {env : List Bind} (h : Bind.pureL env = true) {i : Nat} {b : Bind} (hb : env[i]? = some b) :
+    b.pure = true := by
+  induction env generalizing i with
+  | nil => simp at hb
+  | cons x xs ih =>
+    simp only [Bind.pureL_cons, Bool.and_eq_true] at h
+    cases i with
+    | zero => simp at hb; subst hb; exact h.1
+    | succ i => simp at hb; exact ih h.2 hb
+
+theorem Bind.pureL_drop {env : List Bind} (h : Bind.pureL env = true) (n : Nat) : Bind.pureL (env.drop n) = true := by
+  induction env generalizing n with
+  | nil => simp
+  | cons x xs ih =>
+    simp only [Bind.pureL_cons, Bool.and_eq_true] at h
+    cases n with
+    | zero => simp [h.1, h.2]
+    | succ n => simpa using ih h.2 n
+
+theorem lookupFn_pure {c : Ctx} (hc : c.pure = true) {i : Nat} {t : T} {env : List Bind}
+    (h : lookupFn c i = some (t, env)) : t.pureIdx = true ∧ Bind.pureL env = true := by
+  unfold lookupFn at h
+  split at h
+  · rename_i t' e' hb
+    simp only [Option.some.injEq, Prod.mk.injEq] at h
+    obtain ⟨rfl, rfl⟩ := h
+    have := Bind.pureL_get hc hb
+    simpa using this
+  · simp at h
+
+theorem mkClosure_pure {a : T} {env : List Bind} (ha : a.pureIdx = true) (he : Bind.pureL env = true) :
+    (mkClosure a env).pure = true := by
+  unfold mkClosure
+  split
+  · split
+    · rename_i t e hb
+      exact Bind.pureL_get he hb
+    · simp [ha, he]
+  · simp [ha, he]
+
+theorem bindArgs_pure {c : Ctx} (hc : c.pure = true) (v : Val) : ∀ {args : List (Bool × T)} {env env' : List Bind},
+    T.pureArgs args = true → Bind.pureL env = true → bindArgs c v args env = some env' → Bind.pureL env' = true := by
+  intro args
+  induction args with
+  | nil => intro env env' _ he h; simp [bindArgs] at h; subst h; exact he
+  | cons a rest ih =>
+    intro env env' ha he h
+    obtain ⟨k, a⟩ := a
+    cases k with
+    | true =>
+      simp only [T.pureArgs, Bool.and_eq_true] at ha
+      simp only [bindArgs] at h
+      exact ih ha.2 (by simp [mkClosure_pure ha.1 hc, he]) h
+    | false =>
+      simp only [T.pureArgs, Bool.and_eq_true] at ha
+      simp only [bindArgs] at h
+      split at h
+      · exact ih ha.2 (by simp [he]) h
+      · simp at h
+
+theorem callCtx_pure {c : Ctx} (hc : c.pure = true) {skip : Nat} {args : List (Bool × T)} {v : Val} {c' : Ctx}
+    (ha : T.pureArgs args = true) (h : callCtx c skip args v = some c') : c'.pure = true := by
+  unfold callCtx at h
+  split at h
+  · rename_i env henv
+    simp only [Option.some.injEq] at h
+    subst h
+    exact bindArgs_pure hc v ha (Bind.pureL_drop hc skip) henv
+  · simp at h
+
 theorem K.th_pure {k : K} (hk : k.pureIdx = true) (y : Val) : (k.th y).pureIdx = true := by
   cases k <;> simp_all [K.th, K.app, K.pureIdx, Th.pureIdx, T.pureIdx]
   · split <;> simp_all
   · split <;> simp_all [T.pureIdx]
-  · exact simple_pure hk
+  · exact simple_pure hk.1
+  · split <;> simp_all [T.pureIdx]
 
 /-! ### pulls with "some fuel" -/
 
@@ -112,11 +207,19 @@ theorem nextR_wrap_notready {s : Wr} (a : It) (w : World) (hs : s.ready = false)
   refine ⟨1, ?_⟩
   rw [next_succ]; simp [nextStep, hs]
 
-theorem nextR_wrap_none {s : Wr} {a w a' w1} (hs : s.ready = true) (h : NextR D a w (none, a', w1)) :
+theorem nextR_wrap_none {s : Wr} {a w a' w1} (hs : s.ready = true) (he : s.atEnd = none)
+    (h : NextR D a w (none, a', w1)) :
     NextR D (.wrap s a) w (none, .wrap s a', w1) := by
   obtain ⟨m, h⟩ := h
   refine ⟨m + 1, ?_⟩
-  rw [next_succ]; simp only [nextStep, hs, h, if_true]
+  rw [next_succ]; simp only [nextStep, hs, h, he, if_true]
+
+theorem nextR_wrap_atEnd {s : Wr} {a w a' w1 x} (hs : s.ready = true) (he : s.atEnd = some x)
+    (h : NextR D a w (none, a', w1)) :
+    NextR D (.wrap s a) w (some x, .nil, w1) := by
+  obtain ⟨m, h⟩ := h
+  refine ⟨m + 1, ?_⟩
+  rw [next_succ]; simp only [nextStep, hs, h, he, if_true]
 
 theorem nextR_wrap_emit {s : Wr} {a w x a' w1 x' s'} (hs : s.ready = true)
     (h : NextR D a w (some x, a', w1)) (hx : s.step x = .emit x' s') :
@@ -264,14 +367,6 @@ theorem mkR_call {i body c v w a w1} (hb : D[i]? = some body) (h : MkR D body c.
     MkR D (.call i) c v w (.wrap .stack a, w1) := by
   obtain ⟨m, h⟩ := h
   exact ⟨m + 1, by rw [mk_succ]; simp only [mkStep, hb, h]⟩
-
-/-- the value of a simple index filter -/
-def simpleVal (i : T) (c : Ctx) (v : Val) : Option Item :=
-  match i with
-  | .id => some (.ok v)
-  | .lit x => some (.ok x)
-  | .var n => lookup c n
-  | _ => none
 
 theorem mk_simple {i : T} (hi : i.simple = true) (n : Nat) (c : Ctx) (v : Val) (w : World) :
     mk D (n + 1) i c v w = some ((match simpleVal i c v with | some x => It.once x | none => It.nil), w) := by
